@@ -11,3 +11,5 @@ import Dnp3.Driver.Ffi
 import Dnp3.Driver.Db
 import Dnp3.Driver.Master
 import Dnp3.Model.MasterTrace
+import Dnp3.Model.Pair
+import Dnp3.Driver.Pair
